@@ -121,7 +121,12 @@ void gt_exp_gls_naf(gt_t c, const gt_t a, const bn_t b, size_t f) {
 	bn_t n, u, *_b = RLC_ALLOCA(bn_t, f);
 	size_t l, *_l = RLC_ALLOCA(size_t, f);
 
-	if (naf == NULL || t == NULL || _b == NULL || _l == NULL) {
+	if (naf == NULL || s == NULL || t == NULL || _b == NULL || _l == NULL) {
+		RLC_FREE(naf);
+		RLC_FREE(s);
+		RLC_FREE(t);
+		RLC_FREE(_b);
+		RLC_FREE(_l);
 		RLC_THROW(ERR_NO_MEMORY);
 		return;
 	}
@@ -138,16 +143,20 @@ void gt_exp_gls_naf(gt_t c, const gt_t a, const bn_t b, size_t f) {
 	bn_null(n);
 	bn_null(u);
 	gt_null(q);
+	for (size_t i = 0; i < f; i++) {
+		bn_null(_b[i]);
+		for (size_t j = 0; j < RLC_GT_TABLE; j++) {
+			gt_null(t[i * RLC_GT_TABLE + j]);
+		}
+	}
 
 	RLC_TRY {
 		bn_new(n);
 		bn_new(u);
 		gt_new(q);
 		for (size_t i = 0; i < f; i++) {
-			bn_null(_b[i]);
 			bn_new(_b[i]);
 			for (size_t j = 0; j < RLC_GT_TABLE; j++) {
-				gt_null(t[i * RLC_GT_TABLE + j]);
 				gt_new(t[i * RLC_GT_TABLE + j]);
 			}
 		}
